@@ -147,3 +147,105 @@ MANIFEST_TEXT["C16"] = dict(
     technique="property-based testing over a boundary-value pool + small-scope enumeration of interacting fields (acceptance); stateful PBT with fault injection (robustness)",
     level="Exploration with an exhaustive small-scope part: the pool products of the interacting field groups are enumerated completely; histories are generated.",
     note=NOTE_PBT)
+
+DEC_ASSUME = ASSUME_COMMON + [
+    "scripted writers obey the io.Writer contract (a short write comes with an error) and always return",
+    "DecoderBuffer.BufferSize is a soft capacity: the model never predicts ErrFullBuffer, only that it is the one legal refusal of a well-formed operand",
+]
+
+
+def dec_hist(tests_quick, tests_thorough):
+    return {"quick": {"tests": tests_quick}, "thorough": {"shards": 16, "tests": tests_thorough}}
+
+
+CHECKS["C04"] = dict(
+    dec_hist([{"test": "TestC04", "checks": 20000, "subchecks": 2}],
+             [{"test": "TestC04", "checks": 200000, "subchecks": 2}]),
+    rule=("stateful histories over lz.DecoderBuffer (WriteByte, Write, WriteMatch, WriteBlock, Read, WriteTo with healthy "
+          "and faulting writers, Reset, ByteAtEnd) and over lz.Decoder with a healthy writer; WindowSize 1..64, BufferSize "
+          "0 (=2W) or W+1..W+64; valid operands drawn from the model state (offsets up to exactly min(W, written), "
+          "overlapping matches, literal runs and matches from 0 to beyond BufferSize). After every op: Data is the tail of "
+          "the reference expansion, the read cursor is where the model says, min(W, written) bytes stay addressable, bytes "
+          "read/offered equal the expansion; Decoder: the writer holds a prefix, and everything after Flush. Non-trivial: "
+          "(dbuf) shrink discarded bytes while the read cursor was inside the data and a later match used distance == "
+          "WindowSize; (dec) the retry loop ran, sequences were written and the stream exceeds BufferSize."),
+    assumptions=DEC_ASSUME,
+)
+CHECKS["C05"] = dict(
+    dec_hist([{"test": "TestC05", "checks": 20000, "subchecks": 2}],
+             [{"test": "TestC05", "checks": 200000, "subchecks": 2}]),
+    rule=("C04 histories where 35% of the WriteMatch/WriteBlock operands are hostile: one sequence of a valid block is "
+          "corrupted (Offset 0 with a match, Offset beyond min(W, available) incl. bound+1, LitLen beyond the literals, "
+          "fields from {0,1,2^31-1,2^31,2^32-1,...} or arbitrary uint32, enormous MatchLen). Oracle: malformed => error, "
+          "k = its index, l = literals before it, buffer = expansion of exactly those k sequences, caller's block "
+          "unchanged, never a panic; well-formed operands are not answered with the offset/litlen errors. Non-trivial: a "
+          "rejected sequence with >= 1 valid sequence in front of it in the same block, in a buffer that had already "
+          "shrunk (dec: in a stream longer than BufferSize)."),
+    assumptions=DEC_ASSUME,
+)
+CHECKS["C06"] = dict(
+    dec_hist([{"test": "TestC06", "checks": 20000, "subchecks": 2}],
+             [{"test": "TestC06", "checks": 200000, "subchecks": 2}]),
+    rule=("Decoder and DecoderBuffer histories with 60% of the operand sizes drawn relative to the free space "
+          "BufferSize-WindowSize (one less, equal, one more, BufferSize, larger than BufferSize), valid and hostile, "
+          "writer faults included. The scripted writer counts consecutive zero-length drains inside one API call: 8 in a "
+          "row is a spin (the call is then ended through the code's own error path with a sentinel error); a watchdog "
+          "covers pure CPU loops. Non-trivial: a Decoder call that had to drain to the writer (retry loop ran)."),
+    assumptions=DEC_ASSUME,
+)
+CHECKS["C07"] = dict(
+    dec_hist([{"test": "TestC07", "checks": 10000, "subchecks": 2},
+              {"test": "TestC07Parsers", "checks": 2000, "subchecks": KINDS7}],
+             [{"test": "TestC07", "checks": 100000, "subchecks": 2},
+              {"test": "TestC07Parsers", "checks": 5000, "subchecks": KINDS7}]),
+    rule=("(a) parser side: histories (Write, ReadFrom, Parse both flags, Shrink) of all 7 kinds with small windows and "
+          "BlockSize from 1 to beyond 4*W; every emitted block is written to a Decoder{WindowSize W, BufferSize 0 or "
+          "W+1..4W}; (b) synthetic side: blocks generated to be well-formed for W, item sizes up to and beyond "
+          "BufferSize-WindowSize. Oracle: WriteBlock returns nil with k, l complete, after Flush the writer holds the "
+          "original bytes; at DecoderBuffer level a well-formed item that fits BufferSize-WindowSize is never answered "
+          "with the permanent MatchLen error. Items larger than BufferSize-WindowSize are the known finding D14: counted "
+          "as excluded_known, still executed (must end with an error, not a spin), the stream is resynchronised. "
+          "Non-trivial: a block with a match that forced the decoder to flush, or BlockSize > WindowSize."),
+    assumptions=DEC_ASSUME,
+)
+CHECKS["C17"] = dict(
+    dec_hist([{"test": "TestC17", "checks": 20000, "subchecks": 2}],
+             [{"test": "TestC17", "checks": 200000, "subchecks": 2}]),
+    rule=("DecoderBuffer histories biased to a full buffer with already-read bytes (Read/WriteTo before writes), blocks "
+          "that stop early with an error (15% hostile), and Decoder.WriteBlock with multi-attempt calls. Oracle from the "
+          "model: n = bytes appended by the call, k, l as consumed, Off = total bytes written, Write/WriteMatch report "
+          "what they appended. Non-trivial: a WriteBlock during which the buffer discarded bytes (dbuf) / that needed "
+          "several attempts (dec)."),
+    assumptions=DEC_ASSUME,
+)
+CHECKS["C18"] = dict(
+    dec_hist([{"test": "TestC18", "checks": 20000, "subchecks": 2},
+              {"test": "TestC18Enum", "checks": 300, "subchecks": 1, "nocount": True}],
+             [{"test": "TestC18", "checks": 200000, "subchecks": 2},
+              {"test": "TestC18Enum", "checks": 2000, "subchecks": 1, "nocount": True}]),
+    level="fault_enumeration",
+    rule=("Decoder histories of valid blocks/writes/bytes with a scripted writer whose first calls accept everything, "
+          "accept 0..12 bytes with an error, or accept everything with an error (0..12 events, several faults); the harness "
+          "plays the documented caller (retry Sequences[k:], Literals[l:] / p[n:] / the byte / Flush). TestC18Enum "
+          "enumerates, for generated short streams, every single-fault placement over the writer calls of the fault-free "
+          "run x every accepted count 0..len-1. Oracle: after every call the accepted bytes are a prefix of the reference "
+          "expansion; errors surfaced are the writer's; after the final Flush accepted == expansion. Non-trivial: a short "
+          "write (0 < accepted < len) inside a WriteBlock retry loop."),
+    assumptions=DEC_ASSUME,
+)
+for pid, tech, lvl in [
+    ("C04", "stateful model-based property testing (rapid) of DecoderBuffer/Decoder against a reference LZ77 expansion model",
+     "Generated-history exploration; relations checked after every operation against exported fields and writer output."),
+    ("C05", "stateful property-based testing with hostile operand generation (boundary pool + uint32 fuzz) against a reference validator",
+     "Generated-history exploration with hostile operands in every reachable buffer state; thorough adds a native coverage-guided fuzz campaign."),
+    ("C06", "stateful property-based testing with a spin-detecting scripted writer (deterministic non-termination oracle) plus watchdog",
+     "Generated-history exploration; loops through caller code are decided deterministically by counting empty drains, CPU loops by a confirmed watchdog."),
+    ("C07", "property-based differential pipeline parser -> Decoder plus synthetic well-formed block generation",
+     "Generated-input exploration; one known finding (D14) is excluded by construction and counted."),
+    ("C17", "stateful model-based property testing (rapid): returned counts and Off against model counts",
+     "Generated-history exploration with exact oracle for n, k, l and Off."),
+    ("C18", "fault injection: generated and enumerated writer fault placements, exactly-once oracle on the accepted bytes",
+     "Fault enumeration over single-fault placements on short streams plus generated multi-fault scripts."),
+]:
+    MANIFEST_TEXT[pid] = dict(engine="decoder-model", technique=tech, level=lvl, note=NOTE_PBT,
+                              category="fault_enumeration" if pid == "C18" else "exploration")
